@@ -160,6 +160,15 @@ func c04Case(t *T) {
 		}
 	}
 
+	{
+		// a fallback request first: then route requests, then fallback requests again - all on the same pooled context
+		nf0 := p.NotFoundH
+		st0 := 200
+		if nf0 == nil {
+			nf0, st0 = []*MW{fakeTerminal}, 404
+		}
+		check("not_found", "GET", "/no/such/route/yet", append(append([]*MW{}, p.Globals...), nf0...), st0)
+	}
 	for _, rs := range p.Routes {
 		chain := append(append(append([]*MW{}, p.Globals...), rs.Chain...), rs.Main)
 		path := rs.RequestPath(r)
